@@ -32,3 +32,58 @@ pub fn replay_lex(path: &str, out: &mut impl Write) -> (u64, u64) {
     }
     (n, bad)
 }
+
+/// Directive-tree behaviours: {"toks": ["p"|"if"|"el"|"en" ...] (the last "p" is the end-of-file token), "passes": [[pos...]...]}
+pub fn replay_passes(path: &str, out: &mut impl Write) -> (u64, u64) {
+    use pasfmt_core::verif as hooks;
+    let f = std::io::BufReader::new(std::fs::File::open(path).expect("behaviours file"));
+    let (mut n, mut bad) = (0u64, 0u64);
+    for line in f.lines() {
+        let line = line.unwrap();
+        if line.trim().is_empty() {
+            continue;
+        }
+        let v: Value = serde_json::from_str(&line).expect("behaviour json");
+        let toks: Vec<&str> = v["toks"].as_array().unwrap().iter().map(|x| x.as_str().unwrap()).collect();
+        let mut text = String::new();
+        for (i, t) in toks[..toks.len() - 1].iter().enumerate() {
+            if i > 0 {
+                text.push(if i % 3 == 0 { '\n' } else { ' ' });
+            }
+            text.push_str(match (*t, (i + toks.len()) % 3) {
+                ("p", 0) => "x",
+                ("p", 1) => ";",
+                ("p", _) => "begin",
+                ("if", 0) => "{$ifdef A}",
+                ("if", 1) => "{$if Defined(B)}",
+                ("if", _) => "(*$IFNDEF C*)",
+                ("el", 0) => "{$else}",
+                ("el", 1) => "{$elseif D}",
+                ("el", _) => "{$ELSE}",
+                ("en", 0) => "{$endif}",
+                ("en", 1) => "{$ifend}",
+                (_, _) => "(*$endif*)",
+            });
+        }
+        n += 1;
+        hooks::start();
+        let r = parse(&text);
+        let events = hooks::take();
+        let passes: Vec<Vec<i64>> = events
+            .iter()
+            .filter_map(|e| match e {
+                hooks::Event::Step("pass", a, _) => Some(a.iter().map(|i| i + 1).collect()),
+                _ => None,
+            })
+            .collect();
+        let got = match r {
+            Ok(_) => json!(passes),
+            Err(p) => json!({"panic": p}),
+        };
+        if got != v["passes"] {
+            bad += 1;
+            let _ = writeln!(out, "{}", json!({"t": "mismatch", "kind": "passes", "text": text, "toks": v["toks"], "spec": v["passes"], "impl": got}));
+        }
+    }
+    (n, bad)
+}
